@@ -269,6 +269,7 @@ MUTANTS = [
 const char *dl_get_tag(void) { return dl_tag; }
 /* Free zckDL header regex used for downloading ranges */""", 'expect': None},
 ]
-MUTANTS[0]['edits'] = [('src/lib/dl/dl.c', MUTANTS[0]['old'], MUTANTS[0]['new']),
+_m43 = [m for m in MUTANTS if m['id'] == 'm43'][0]
+_m43['edits'] = [('src/lib/dl/dl.c', _m43['old'], _m43['new']),
                        ('src/lib/dl/dl.c', "/* Free zckDL header regex used for downloading ranges */",
                         "static size_t total_written;\n/* Free zckDL header regex used for downloading ranges */")]
